@@ -943,7 +943,14 @@ func facadeRunSeq(o *facadeSeqOps, cell facadeSeqCell, n int, npos int, r *rng, 
 	switch malformed {
 	case 1: // two data arguments (the priority of the final switch decides)
 		extra := facadeGenVals(o.gen, facadePick(r, []int{0, 1, 2, 3}), r)
-		switch r.intn(4) {
+		branch := r.intn(4)
+		// a capacity next to data, for the kinds that have one: the capacities sit around the number of values, so that
+		// a constructor that fills the new queue/stack with the values WITHOUT sizing it blocks (Queue) or overflows (Stack)
+		capData := (cell.kind == "Queue" || cell.kind == "Stack") && (cell.form == "slice" || cell.form == "seq" || cell.form == "source")
+		if capData && r.chance(2, 3) {
+			branch = 3
+		}
+		switch branch {
 		case 0:
 			addSlice(extra)
 		case 1:
@@ -951,7 +958,16 @@ func facadeRunSeq(o *facadeSeqOps, cell facadeSeqCell, n int, npos int, r *rng, 
 		case 2:
 			addSource(extra, cell.kind)
 		default:
-			a, e, l := facadeSizeArg(facadePick(r, []string{"sizeU", "sizeI"}), facadePick(r, []int{0, 1, 4}))
+			sizes := []int{0, 1, 4}
+			if capData {
+				sizes = []int{1, 2, n - 1, n, n + 1, 1}
+				for i := range sizes {
+					if sizes[i] < 1 {
+						sizes[i] = 1
+					}
+				}
+			}
+			a, e, l := facadeSizeArg(facadePick(r, []string{"sizeU", "sizeI"}), facadePick(r, sizes))
 			args, encs, lits = append(args, a), append(encs, e), append(lits, l)
 		}
 		if r.chance(1, 2) && len(args) >= 2 {
@@ -1357,6 +1373,12 @@ func genFacade(prop string, seed uint64, tier, outDir string, count int) error {
 		if cr.chance(1, 8) {
 			malformed = []int{1, 1, 2, 3}[cr.intn(4)]
 		}
+		if cell < len(facadeSeqCells) && malformed == 0 && cr.chance(1, 4) {
+			// Queue / Stack given data: a quarter of these calls also get a capacity (malformed kind 1, see facadeRunSeq)
+			if sc := facadeSeqCells[cell]; (sc.kind == "Queue" || sc.kind == "Stack") && (sc.form == "slice" || sc.form == "seq" || sc.form == "source") {
+				malformed = 1
+			}
+		}
 		var c *facadeCase
 		switch {
 		case cell < len(facadeSeqCells):
@@ -1385,6 +1407,12 @@ func genFacade(prop string, seed uint64, tier, outDir string, count int) error {
 		meta.LenHist[fmt.Sprintf("size %02d", c.size)]++
 		if c.mod.oc == ocHang {
 			meta.Hangs++
+			// whatever the arguments, a constructor call returns or panics: nobody else holds the new collection yet, so a call
+			// that blocks (a queue filled beyond its own capacity) blocks for ever (C05: constructing a queue returns for every N)
+			nviol++
+			if len(predViolations) < 40 {
+				predViolations = append(predViolations, fmt.Sprintf("case %d: %s => %s | VIOLATED: the module-level constructor did not return within the watchdog period (it blocks on the collection it is constructing)", i, c.call, c.mod.human()))
+			}
 		}
 		for _, p := range []string{c.predClass, c.predSource} {
 			if strings.HasPrefix(p, "VIOLATED") {
@@ -1402,7 +1430,7 @@ func genFacade(prop string, seed uint64, tier, outDir string, count int) error {
 		meta.Traces = append(meta.Traces, c.trace())
 	}
 	meta.Cases = len(cases)
-	meta.Rule = "one case = one call of a module-level constructor; the (kind, argument form) cells are visited round-robin, element/key types (7, and 49 key/value pairs), sizes (0,1,2,d-1,d,d+1,d+4,3,5,8 for the default capacity d read from DefaultCapacity() and 1/6 random 0..d+4) and notation position (none/first/last; for associations also between key and value) rotate with seed-dependent phases; 1/8 of the calls are malformed (two data arguments, unknown argument types, ill-typed or unparsable sources, swapped/missing association arguments); a case is distinct and non-trivial when it has at least one argument and its (kind, types, encoded argument list) differs from every other case"
+	meta.Rule = "one case = one call of a module-level constructor; the (kind, argument form) cells are visited round-robin, element/key types (7, and 49 key/value pairs), sizes (0,1,2,d-1,d,d+1,d+4,3,5,8 for the default capacity d read from DefaultCapacity() and 1/6 random 0..d+4) and notation position (none/first/last; for associations also between key and value) rotate with seed-dependent phases; 1/8 of the calls are malformed - for Queue and Stack given data a further quarter, most of them a CAPACITY NEXT TO THE DATA with the capacity around the number of values (1, 2, n-1, n, n+1): no class-level constructor takes both, the call must return (two data arguments, unknown argument types, ill-typed or unparsable sources, swapped/missing association arguments); a case is distinct and non-trivial when it has at least one argument and its (kind, types, encoded argument list) differs from every other case"
 	meta.Extra["predicate_violations_count"] = nviol
 	meta.Extra["predicate_violations"] = predViolations
 	meta.Extra["predicates"] = "evaluated in Go on the implementation for every well-formed case: (a) module-level result = class-level result on the same data (kind, contents, order, capacity, collator identity; order ignored only where a Go map is the source of a catalog), (b) source form: contents and order = those of ParseSource on the same text (as sets for Set and Map)"
